@@ -498,3 +498,33 @@ Definition f2_sched : list nat := [1;1; 0;0;0;0;0;0; 2;2;2;2;2;2;2;2; 0; 1]%nat.
 Definition race_progs : list (list op) := [[OStart; OStop]; [ORetire]].
 Definition race_sched : list nat := [0; 1; 0; 1; 0; 1; 2;2;2;2;2;2;2;2;2; 0]%nat.
 
+Lemma f2_single_stop : single_stop f2_progs.
+Proof.
+  intros t1 p1 i1 t2 p2 i2 H1 H2 H3 H4.
+  destruct t1 as [|[|[|]]]; cbn in H1; try discriminate; injection H1 as <-;
+  destruct i1 as [|[|[|[|]]]]; cbn in H2; try discriminate;
+  destruct t2 as [|[|[|]]]; cbn in H3; try discriminate; injection H3 as <-;
+  destruct i2 as [|[|[|[|]]]]; cbn in H4; try discriminate; auto.
+Qed.
+
+Theorem gc_all_before_stop_refuted :
+  exists bits progs s, single_stop progs /\ Reach src_kc bits progs s /\ gver s < STOP_EPOCH /\ all_done s = true /\ ~ stop_complete s.
+Proof.
+  exists 1%nat, f2_progs, (run st step (init 1 f2_progs) f2_sched).
+  split; [exact f2_single_stop|]. split; [exists f2_sched; reflexivity|]. split; [vm_compute; reflexivity|].
+  split; [vm_compute; reflexivity|]. intro C. unfold stop_complete in C. vm_compute in C.
+  specialize (C 0%nat _ 1%nat 0%nat eq_refl (or_intror (or_intror (or_introl eq_refl))) 0%nat _ (le_n 1) eq_refl eq_refl).
+  exact C.
+Qed.
+
+Theorem gc_retire_racing_stop_refuted :
+  exists bits progs s x, no_regions progs /\ Reach src_kc bits progs s /\ all_done s = true /\ coll_quiet s = true /\
+    In (Some x) (qall s) /\ is_marker x = false /\ ~ In x (map fst (calls s)) /\ In x (gone s).
+Proof.
+  exists 1%nat, race_progs, (run st step (init 1 race_progs) race_sched),
+         {| tk_id := (1%nat, 0%nat); tk_epoch := 1; tk_blk := []; tk_ticket := 1 |}.
+  split. { intros p [<-|[<-|[]]] H; cbn in H; repeat (destruct H as [H|H]; [discriminate H|]); exact H. }
+  split; [exists race_sched; reflexivity|].
+  split; [vm_compute; reflexivity|]. split; [vm_compute; reflexivity|].
+  split; [vm_compute; tauto|]. split; [vm_compute; reflexivity|]. split; [vm_compute; tauto | vm_compute; tauto].
+Qed.
